@@ -658,12 +658,31 @@ def rule_P4(prog, fixture=False):
 # ------------------------------------------------------------------------------------------------
 # M1: a value kept in static storage between calls is keyed by everything it was computed from
 _M1_SIZE = {"size", "empty", "length"}
+_M1_ADDR = {"data", "begin", "end", "cbegin", "cend"}
+
+
+def _m1_address_of_param(v):
+    """x.data() / x.begin() / &x of a parameter: the value is an address"""
+    e = v.strip_all()
+    if e.k == "CXXMemberCallExpr" and not e.call_args():
+        nm = ((e.callee or {}).get("qn") or "").rsplit("::", 1)[-1]
+        o = e.call_object()
+        o = o.strip_all() if o is not None else None
+        if nm in _M1_ADDR and o is not None and o.k == "DeclRefExpr" and o.decl and o.decl.get("k") == "parm":
+            return o.decl["n"]
+    if e.k == "UnaryOperator" and e.op == "&" and e.c:
+        o = e.c[0].strip_all()
+        if o.k == "DeclRefExpr" and o.decl and o.decl.get("k") == "parm":
+            return o.decl["n"]
+    return None
 
 
 def _m1_props(rel):
     out = ["C10"]
     if rel.endswith("primes.cpp"):
         out.append("C15")
+    if rel.endswith(("corr.cpp", "medfilt.cpp", "math.cpp")):
+        out.append("C16")
     if rel.startswith("lib/fft/") or rel.endswith(("stft.cpp", "fft.cpp", "ifft.cpp", "czt.cpp")):
         out.append("C02")
     if rel.endswith(("snr.cpp", "awgn.cpp", "random.cpp", "thd.cpp", "sinad.cpp")):
@@ -693,6 +712,12 @@ def _m1_key_atoms(f, expr, static_id, defs, seen):
                 while p is not None and p.k in ("ImplicitCastExpr", "ParenExpr"):
                     p = p.parent
                 size_only = (p is not None and p.k == "MemberExpr" and p.decl and p.decl.get("n") in _M1_SIZE)
+                # where the storage lies says nothing about what it holds (x.data() == kept_ptr, &x == kept)
+                addr_only = (p is not None and ((p.k == "MemberExpr" and p.decl and p.decl.get("n") in _M1_ADDR)
+                                                or (p.k == "UnaryOperator" and p.op == "&")))
+                if addr_only:
+                    out.add(("parm", d["n"], "address"))
+                    continue
                 out.add(("parm", d["n"], "size"))
                 if not size_only:
                     out.add(("parm", d["n"], "content"))
@@ -875,6 +900,10 @@ def rule_M1(prog, fixture=False):
             dep = set()
             for (w, vals) in writes:
                 for v in vals:
+                    ap = _m1_address_of_param(v)
+                    if ap is not None:
+                        dep.add(("parm", ap, "address"))
+                        continue
                     dep |= {a for a in flow.deps(v) if a[0] in ("parm", "this") and a[1] != "*"}
             keyat = set()
             conds = []
@@ -904,10 +933,12 @@ def rule_M1(prog, fixture=False):
                 if a[0] == "parm":
                     if a[2] == "val" and not any(k[0] == "parm" and k[1] == a[1] for k in keyat):
                         missing.append("the argument %s" % a[1])
-                    elif a[2] == "size" and not any(k[0] == "parm" and k[1] == a[1] for k in keyat):
+                    elif a[2] == "size" and not any(k[0] == "parm" and k[1] == a[1] and k[2] != "address" for k in keyat):
                         missing.append("the length of %s" % a[1])
                     elif a[2] == "content" and ("parm", a[1], "content") not in keyat:
                         missing.append("the contents of %s" % a[1])
+                    elif a[2] == "address" and not any(k[0] == "parm" and k[1] == a[1] and k[2] in ("address", "content") for k in keyat):
+                        missing.append("the address of %s" % a[1])
                 elif a[0] == "this" and not any(k[0] == "this" and k[1] == a[1] for k in keyat):
                     missing.append("the member %s" % a[1])
             # "the length of x" is implied when the contents are missing as well
@@ -925,8 +956,198 @@ def rule_M1(prog, fixture=False):
             else:
                 res.add(key, DISCHARGED, where, what, "every argument the kept value depends on (%s) is mentioned by the condition that "
                         "refreshes it" % (", ".join(sorted({a[1] for a in dep})) or "none"), func=f.name, extra=extra)
+    nfun += _m1_partial_refill(prog, res)
     res.stats["keeping_functions"] = nfun
     return res
+
+
+def _m1_partial_refill(prog, res):
+    """a kept container that is read as a whole is rewritten as a whole: element loops that stop short of its length leave the
+    rest to whatever the previous call put there"""
+    from .flow import is_container_type
+    from .rules_bounds import _loop_shape
+    # accessors: T& f() { thread_local T v; return v; }
+    acc = {}
+    for g in prog.functions.values():
+        if not (g.get("ret") or "").rstrip().endswith("&") or g.params:
+            continue
+        rets = [n for n in g.walk() if n.k == "ReturnStmt" and n.c]
+        ds = []
+        for r in rets:
+            e = r.c[0].strip_all()
+            if e.k == "DeclRefExpr" and e.decl and e.decl.get("k") == "global" and e.decl.get("sl") and not e.decl.get("constq"):
+                ds.append(e.decl)
+        if rets and len(ds) == len(rets) and len({d_["n"] for d_ in ds}) == 1:
+            acc[g.usr] = ds[0]
+    n_inst = 0
+    for f in sorted(prog.functions.values(), key=lambda g: (g.file, g.line)):
+        if not f.blocks or f.entry is None:
+            continue
+        kept = {}        # ('g', qn) or ('l', local id) -> static decl
+        for n in f.walk():
+            if n.k == "DeclRefExpr" and n.decl and n.decl.get("k") == "global" and n.decl.get("sl") and n.decl.get("repo") \
+                    and not n.decl.get("constq") and is_container_type(n.decl.get("dt", "")):
+                kept[("g", n.decl.get("qn", n.decl["n"]))] = n.decl
+            elif n.k == "VarDecl" and n.c and n.decl and (n.type or "").rstrip().endswith("&") and is_container_type(n.type or ""):
+                for x in n.c[0].walk():
+                    if x.is_call() and x.callee and x.callee.get("usr") in acc:
+                        kept[("l", n.decl["id"])] = acc[x.callee["usr"]]
+        if not kept:
+            continue
+        defs = {}
+        for n in f.walk():
+            if n.k == "VarDecl" and n.c and n.decl:
+                defs.setdefault(n.decl["id"], []).append(n.c[0])
+
+        def which(node):
+            e = node.strip_all()
+            if e.k != "DeclRefExpr" or not e.decl:
+                return None
+            if e.decl.get("k") == "global" and ("g", e.decl.get("qn", e.decl["n"])) in kept:
+                return ("g", e.decl.get("qn", e.decl["n"]))
+            if e.decl.get("k") == "local" and ("l", e.decl["id"]) in kept:
+                return ("l", e.decl["id"])
+            return None
+
+        def resolve(e, depth=0):
+            e = e.strip_all()
+            while depth < 4 and e.k == "DeclRefExpr" and e.decl and e.decl.get("k") == "local" and len(defs.get(e.decl["id"], ())) == 1 \
+                    and "const" in (e.decl.get("dt") or ""):
+                e = defs[e.decl["id"]][0].strip_all()
+                depth += 1
+            return e
+
+        def names(e):
+            out = set()
+            for x in resolve(e).walk():
+                if x.k == "DeclRefExpr" and x.decl and x.decl.get("k") in ("parm", "local", "global"):
+                    r = resolve(x)
+                    if r is not x.strip_all():
+                        out |= names(r)
+                    else:
+                        out.add(x.decl["n"])
+                elif x.k == "MemberExpr" and x.decl and x.decl.get("k") == "field":
+                    out.add(x.decl["n"])
+            return out
+
+        for kk, d in sorted(kept.items(), key=lambda kv: str(kv[0])):
+            loops, sizes, whole_reads, whole_every = [], [], [], False
+            tb = tuple(f.throw_blocks())
+            for n in f.walk():
+                # element writes inside counted loops
+                tgt = None
+                if n.k in ("BinaryOperator", "CompoundAssignOperator") and n.op == "=" and len(n.c) == 2:
+                    tgt, val = n.c[0], n.c[1]
+                elif n.k == "CXXOperatorCallExpr" and n.op == "=" and len(n.c) >= 3:
+                    tgt, val = n.c[1], n.c[2]
+                if tgt is not None:
+                    t0 = tgt.strip_all()
+                    if which(t0) == kk:
+                        # whole assignment: K = T(e) / zeros(e)
+                        v0 = val.strip_all()
+                        while v0.k in ("CXXConstructExpr", "CXXFunctionalCastExpr", "CXXTemporaryObjectExpr", "CXXBindTemporaryExpr",
+                                       "MaterializeTemporaryExpr") and len(v0.c) == 1 and v0.c[0].strip_all().k in (
+                                       "CXXConstructExpr", "CXXTemporaryObjectExpr", "CallExpr", "CXXFunctionalCastExpr"):
+                            v0 = v0.c[0].strip_all()
+                        args = v0.call_args() if v0.is_call() else list(v0.c)
+                        if args and args[0].tc in ("int",):
+                            sizes.append(args[0])
+                        loc = f.block_of(n)
+                        if loc is not None and f.exit not in f.reachable(f.entry, removed_blocks=(loc[0],) + tb):
+                            whole_every = True
+                    elif t0.k in ("CXXOperatorCallExpr", "ArraySubscriptExpr") and (t0.op == "[]" or t0.k == "ArraySubscriptExpr"):
+                        base = t0.c[1] if t0.k == "CXXOperatorCallExpr" else t0.c[0]
+                        idx = t0.c[2] if t0.k == "CXXOperatorCallExpr" and len(t0.c) > 2 else (t0.c[1] if len(t0.c) > 1 else None)
+                        if which(base) == kk and idx is not None:
+                            lp = None
+                            for a in n.ancestors():
+                                if a.k == "ForStmt":
+                                    lp = a
+                                    break
+                            sh = _loop_shape(lp) if lp is not None else None
+                            i0 = idx.strip_all()
+                            if sh and i0.k == "DeclRefExpr" and i0.decl and i0.decl.get("id") == sh[0] and sh[3] == "<":
+                                loops.append((sh[2], sh[4], lp))
+                            else:
+                                loops.append((None, None, lp))
+                elif n.is_call() and n.callee:
+                    obj = n.call_object()
+                    nm = (n.callee.get("qn") or "").rsplit("::", 1)[-1]
+                    if obj is not None and which(obj) == kk and nm in ("resize", "assign") and n.call_args():
+                        sizes.append(n.call_args()[0])
+                    if nm in ("fill", "fill_n") and n.call_args() and any(which(x) == kk for a in n.call_args() for x in a.walk()):
+                        whole_every = True
+                    if obj is not None and which(obj) == kk and nm in ("clear", "assign"):
+                        loc = f.block_of(n)
+                        if loc is not None and f.exit not in f.reachable(f.entry, removed_blocks=(loc[0],) + tb):
+                            whole_every = True
+                if n.k == "DeclRefExpr" and which(n) == kk:
+                    p = n.parent
+                    while p is not None and p.k in ("ImplicitCastExpr", "ParenExpr", "MaterializeTemporaryExpr", "CXXBindTemporaryExpr"):
+                        p = p.parent
+                    if p is None:
+                        continue
+                    if p.k == "MemberExpr":
+                        continue          # K.size(), K.data(), K.begin() ...: not the object as a whole
+                    if p.k == "CXXOperatorCallExpr" and p.op in ("[]", "=") and len(p.c) > 1 and p.c[1].strip_all() is n:
+                        continue
+                    if p.k == "ArraySubscriptExpr":
+                        continue
+                    if p.k == "VarDecl" and (p.type or "").rstrip().endswith("&"):
+                        continue          # another name for it
+                    whole_reads.append(n)
+            if not loops or not whole_reads or not sizes:
+                continue
+            n_inst += 1
+            rel = prog.rel(f.file)
+            key = "M1:%s:%s:partial-refill" % (f.name.replace("(anonymous namespace)::", "").split("(")[0], d["n"])
+            what = "%s in %s" % (d["n"], f.short)
+            extra = {"props": _m1_props(rel)}
+            where = "%s:%d" % (rel, whole_reads[0].line)
+            if whole_every:
+                res.add(key, DISCHARGED, where, what, "rewritten as a whole by every call", func=f.name, extra=extra)
+                continue
+            if any(a is None for (a, b, c) in loops):
+                res.add(key, UNMODELLED, where, what, "element writes outside counted loops", func=f.name, extra=extra)
+                continue
+            # chain the loop intervals from 0
+            cur, used = "0", set()
+            last = None
+            progress = True
+            while progress:
+                progress = False
+                for i, (a, b, lp) in enumerate(loops):
+                    if i in used:
+                        continue
+                    at = resolve(a).text()
+                    if at == cur or a.text() == cur:
+                        cur = resolve(b).text()
+                        last = b
+                        used.add(i)
+                        progress = True
+                        for j, (a2, b2, _) in enumerate(loops):
+                            if j not in used and (b2.text() == b.text()) and (a2.text() == a.text()):
+                                used.add(j)
+            size_texts = {resolve(z).text() for z in sizes} | {z.text() for z in sizes}
+            selfsize = {"%s.size()" % nm for nm in [d["n"]] + [x.decl["n"] for x in f.walk() if x.k == "VarDecl" and x.decl and ("l", x.decl["id"]) == kk]}
+            if last is None:
+                res.add(key, UNMODELLED, where, what, "no element loop starts at 0", func=f.name, extra=extra)
+            elif cur in size_texts or cur in selfsize or last.text() in size_texts:
+                res.add(key, DISCHARGED, where, what, "the element loops cover [0, %s), the length the object is given" % cur, func=f.name, extra=extra)
+            else:
+                na, nb = names(last), set()
+                for z in sizes:
+                    nb |= names(z)
+                if na and nb and not (na & nb):
+                    res.add(key, VIOLATED, "%s:%d" % (rel, last.line), what,
+                            "%s is kept between calls with %s elements and read as a whole (line %d), but each call rewrites only [0, %s): the "
+                            "elements from there on are written when the object is re-created and otherwise keep what an earlier call "
+                            "left (a zero padding that is no longer zero)" % (d["n"], " / ".join(sorted(size_texts))[:60], whole_reads[0].line,
+                                                                               last.text()), func=f.name, extra=extra)
+                else:
+                    res.add(key, UNMODELLED, where, what, "cannot relate the refilled range [0, %s) to the length %s" % (cur, sorted(size_texts)),
+                            func=f.name, extra=extra)
+    return n_inst
 
 
 # ------------------------------------------------------------------------------------------------
